@@ -158,7 +158,7 @@ func perm(r *core.Rand, vals []interface{}) []interface{} {
 
 func runRelational(c *core.Ctx) {
 	r := c.R
-	h, err := vdb.Open(vdb.Options{})
+	h, err := vdb.Open(vdb.Options{DSNExtra: "_foreign_keys=1"})
 	if err != nil {
 		panic(err)
 	}
